@@ -800,7 +800,22 @@ def r01g(ctx):
         ctx.obs.append(o)
 
 
+def r01h(ctx):
+    repo = ctx.repo
+    ctx.rule("R01h", "the first solution is launched towards the receiver: tracing runs from the lower to the higher endpoint (z0 = min, z1 = max of the endpoint depths) and the "
+             "direct launch angle is mirrored (pi - angle) exactly when the source is the higher one", expected=1, kind="N")
+    fn = repo.member("pyrex.ray_tracing.BasicRayTracer", "direct_angle")
+    flips = [n for n in ast.walk(fn) if isinstance(n, ast.If) and any(isinstance(s, ast.Assign) and "np.pi" in u(s.value) for s in n.body)]
+    ok = (len(flips) == 1 and u(flips[0].test).replace(" ", "") in ("self.from_point[2]>self.to_point[2]", "self.to_point[2]<self.from_point[2]")
+          and [u(s) for s in flips[0].body] == ["launch_angle = np.pi - launch_angle"] and not flips[0].orelse)
+    ctx.check(ok, "R01h", "pyrex.ray_tracing.BasicRayTracer.direct_angle", "mirror decided by the true endpoints from_point / to_point (z0 <= z1 always, so a test on them never mirrors)",
+              u(flips[0].test) if flips else "no mirror", key_detail="direct angle mirror", loc=ctx.loc("pyrex.ray_tracing", fn))
+    over = [ci.qual for ci in repo.subclasses("BasicRayTracer") if any(isinstance(st, ast.FunctionDef) and st.name == "direct_angle" for st in ci.node.body)]
+    ctx.check(not over, "R01h", "pyrex.ray_tracing.BasicRayTracer.direct_angle", "no tracer overrides direct_angle", str(over), key_detail="direct angle overrides")
+
+
 def run(ctx):
+    ctx.guard(r01h)
     ctx.guard(r01g)
     ctx.guard(r01f)
     ctx.guard(r01a)
@@ -812,6 +827,7 @@ def run(ctx):
 
 SELFTEST = {
     "faults": [
+        {"name": "mirror decided by the sorted depths", "file": "pyrex/ray_tracing.py", "old": "            if self.from_point[2] > self.to_point[2]:", "new": "            if self.z0 > self.z1:", "rule": "R01h"},
         {"name": "direction of travel ignored when crossing z_uniform", "file": "pyrex/ray_tracing.py",
          "old": "                    if z0<z1:\n                        return int_z1 - int_z0 + int_diff\n                    else:\n                        return int_z1 - int_z0 - int_diff",
          "new": "                    return int_z1 - int_z0 + int_diff", "rule": "R01f"},
